@@ -54,6 +54,8 @@ type escn struct {
 	BlackOf  int // ... the IP of this node (-1: none)
 	BlackF   int
 	DialOnly int // index of a node started without listen addresses (it can only dial out; peers see it as 127.0.0.1), -1: none
+	Shared   bool  // several nodes on ONE IP address (same 127.0.0.x / ::1, different ports): the group below
+	Group    []int // nodes that share the address (>= 2 when Shared)
 	Events   []eev
 }
 
@@ -83,8 +85,16 @@ func genScenario() *rapid.Generator[escn] {
 		if s.V6 {
 			s.N = 2
 		}
+		// one scenario in three: several peers on one IP address (nodes behind one NAT gateway / on one host)
+		s.Shared = rapid.IntRange(0, 2).Draw(t, "sharedIP") == 0
+		if s.Shared {
+			s.N = rapid.SampledFrom([]int{3, 3, 3, 4}).Draw(t, "sharedNodes")
+			if s.V6 {
+				s.N = 3 // everybody is on ::1
+			}
+		}
 		perm := rapid.Permutation([]int{2, 3, 4, 5, 6, 7, 8, 9}).Draw(t, "octets")
-		s.IPs = perm[:s.N]
+		s.IPs = append([]int{}, perm[:s.N]...)
 		s.Security = rapid.SampledFrom([]string{p2p.ConnectionSecurityNone, p2p.ConnectionSecurityTLS, p2p.ConnectionSecurityNoise}).Draw(t, "security")
 		s.ExpiryS = rapid.SampledFrom([]int{1, 1, 2}).Draw(t, "expiryS")
 		s.SweepMs = rapid.SampledFrom([]int{50, 100, 200}).Draw(t, "sweepMs")
@@ -99,6 +109,9 @@ func genScenario() *rapid.Generator[escn] {
 		s.DialOnly = -1
 		if !s.V6 && rapid.IntRange(0, 2).Draw(t, "dialOnly") == 0 {
 			s.DialOnly = rapid.IntRange(0, s.N-1).Draw(t, "dialOnlyNode")
+		}
+		if s.Shared {
+			genSharing(t, &s)
 		}
 		pair := func(e *eev) {
 			e.From = rapid.IntRange(0, s.N-1).Draw(t, "from")
@@ -117,7 +130,12 @@ func genScenario() *rapid.Generator[escn] {
 		}
 		// offence scenario: a few life cycles "misbehave until banned, try to connect both ways, wait, reconnect"
 		cycles := rapid.IntRange(1, 2).Draw(t, "cycles")
+		scripted := s.Shared && rapid.IntRange(0, 9).Draw(t, "siblingScript") < 7
 		for c := 0; c < cycles; c++ {
+			if scripted {
+				genSiblingCycle(t, &s)
+				continue
+			}
 			var off eev
 			pair(&off)
 			dialOnlyOffender := false
@@ -183,7 +201,134 @@ func genScenario() *rapid.Generator[escn] {
 	})
 }
 
+// genSharing puts 2..N nodes of the scenario on ONE IP address (different ports). Every gater keeps its score per IP, so
+// these nodes are one "peer IP" for everybody else. A node without listen addresses is seen as 127.0.0.1; when it is
+// part of the group the listening members listen on 127.0.0.1 as well.
+func genSharing(t *rapid.T, s *escn) {
+	idx := make([]int, s.N)
+	for i := range idx {
+		idx[i] = i
+	}
+	order := rapid.Permutation(idx).Draw(t, "shareOrder")
+	nShare := 2
+	if rapid.IntRange(0, 4).Draw(t, "shareAll") == 0 {
+		nShare = s.N // the node that hands out the penalties lives on the same IP as the peers it penalises
+	} else if s.N == 4 && rapid.Bool().Draw(t, "shareThree") {
+		nShare = 3
+	}
+	if s.V6 {
+		nShare = s.N
+	}
+	if s.DialOnly >= 0 && rapid.Bool().Draw(t, "dialOnlyShares") {
+		for i, x := range order {
+			if x == s.DialOnly {
+				order[0], order[i] = order[i], order[0]
+			}
+		}
+	}
+	s.Group = append([]int{}, order[:nShare]...)
+	octet := s.IPs[s.Group[0]]
+	for _, i := range s.Group {
+		if i == s.DialOnly {
+			octet = 1
+		}
+	}
+	for _, i := range s.Group {
+		s.IPs[i] = octet
+	}
+}
+
+// genSiblingCycle: one life cycle of an IP address that two peers ("first", "second") share, seen from a third node v:
+// both connect; penalties of one or of both of them take the IP's total to the threshold (the peer whose penalty
+// reaches it is disconnected; the other one keeps its connection, that is the engine's behaviour and nothing the
+// statement forbids); then the still connected peer offends as well - through ApplyPenalty / the rate limit (its IP's
+// total is already at the threshold, so it must be disconnected) or through one of the ban paths; both try to come back
+// during the ban, v tries to reach them; after the expiry both reconnect and collect small penalties from a clean score.
+func genSiblingCycle(t *rapid.T, s *escn) {
+	g := rapid.Permutation(append([]int{}, s.Group...)).Draw(t, "siblings")
+	first, second := g[0], g[1]
+	var others []int
+	for i := 0; i < s.N; i++ {
+		if i != first && i != second {
+			others = append(others, i)
+		}
+	}
+	v := rapid.SampledFrom(others).Draw(t, "victimOfSiblings")
+	add := func(e eev) { s.Events = append(s.Events, e) }
+	for _, x := range []int{first, second} {
+		e := eev{Kind: "req", From: x, To: v}
+		if rapid.IntRange(0, 2).Draw(t, "victimDials") == 0 {
+			e.From, e.To = v, x // the connection is opened by v (outbound): the peer's IP is then its listen IP as well
+		}
+		add(e)
+	}
+	for i := rapid.IntRange(0, 2).Draw(t, "nPre"); i > 0; i-- {
+		e := eev{Kind: rapid.SampledFrom([]string{"req", "burst", "app"}).Draw(t, "pre"), From: rapid.SampledFrom([]int{first, second}).Draw(t, "preBy"), To: v}
+		e.Burst = rapid.SampledFrom([]string{"within", "tolimit"}).Draw(t, "burst")
+		e.Extra = rapid.IntRange(0, s.Limit+2).Draw(t, "extra")
+		e.K = rapid.IntRange(1, 20).Draw(t, "k")
+		add(e)
+	}
+	switch rapid.SampledFrom([]string{"single", "single", "across"}).Draw(t, "banMode") {
+	case "single":
+		e := eev{From: first, To: v, Burst: "over"}
+		e.Kind = rapid.SampledFrom([]string{"app", "app", "app", "burst", "badreq", "unkreq", "badres", "unkres"}).Draw(t, "offence")
+		e.K = rapid.SampledFrom([]int{0, 0, 100, 120}).Draw(t, "k")
+		e.Extra = 12 * (s.Limit + 1) // enough excess windows for any penalty amount
+		e.Bytes = genMalformed(t)
+		add(e)
+	default:
+		// the total is reached by penalties of BOTH peers: the one whose penalty reaches it is thrown out, the roles swap
+		k1 := rapid.IntRange(40, 70).Draw(t, "k1")
+		add(eev{Kind: "app", From: second, To: v, K: k1})
+		add(eev{Kind: "app", From: first, To: v, K: 100 - k1 + rapid.IntRange(0, 15).Draw(t, "kOver")})
+	}
+	// the peer that is still connected offends although its IP is banned
+	{
+		e := eev{From: second, To: v}
+		switch rapid.SampledFrom([]string{"penalty", "penalty", "penalty", "rate", "rate", "rate", "ban", "badreq", "unkreq", "unkres"}).Draw(t, "siblingOffence") {
+		case "penalty":
+			e.Kind, e.K = "app", rapid.IntRange(1, 30).Draw(t, "kSmall")
+		case "rate":
+			e.Kind, e.Burst, e.Extra = "burst", rapid.SampledFrom([]string{"over1", "over"}).Draw(t, "burst"), rapid.IntRange(0, 3).Draw(t, "extra")
+		case "ban":
+			e.Kind, e.K = "app", 0
+		case "badreq":
+			e.Kind, e.Bytes = "badreq", genMalformed(t)
+		case "unkreq":
+			e.Kind = "unkreq"
+		default:
+			e.Kind = "unkres"
+		}
+		add(e)
+	}
+	ends := [][2]int{{second, v}, {first, v}, {v, first}, {v, second}}
+	for i := rapid.IntRange(1, 3).Draw(t, "nDials"); i > 0; i-- {
+		p := rapid.SampledFrom(ends).Draw(t, "dialEnds")
+		add(eev{Kind: "dial", From: p[0], To: p[1]})
+	}
+	add(eev{Kind: "await", From: first, To: v})
+	add(eev{Kind: "await", From: second, To: v})
+	for i := rapid.IntRange(1, 2).Draw(t, "nAfter"); i > 0; i-- {
+		p := rapid.SampledFrom(ends).Draw(t, "afterEnds")
+		add(eev{Kind: rapid.SampledFrom([]string{"dial", "dial", "req"}).Draw(t, "after"), From: p[0], To: p[1]})
+	}
+	// clean score, and it accumulates over both peers again
+	add(eev{Kind: "app", From: second, To: v, K: rapid.IntRange(1, 30).Draw(t, "kAfter")})
+	add(eev{Kind: "app", From: first, To: v, K: rapid.IntRange(1, 30).Draw(t, "kAfter2")})
+}
+
+// preState: what the receiver of a possibly offending message stored for the sender's IP just before the message.
+type preState struct {
+	x, y      int
+	score     int
+	exp       int64
+	connected bool
+}
+
 type enode struct {
+	banBy    map[string]int          // ip -> index of the peer whose penalty took the IP to the threshold (current ban)
+	contrib  map[string]map[int]bool // ip -> peers whose penalties make up the current score
 	idx      int
 	ip       string
 	conn     *p2p.Connection
@@ -202,6 +347,28 @@ type erun struct {
 	start time.Time
 	res   *seqResult
 	seq   int
+	pre   map[[2]int]*preState // snapshots taken right before the last message that may earn a penalty (consumed by expectPenalty)
+}
+
+// snap records what x stores about y's IP (and whether y is connected) right now.
+func (r *erun) snap(x, y int) {
+	X, Y := r.nodes[x], r.nodes[y]
+	sc, exp, _ := X.conn.VerifPeerScore(Y.ip)
+	if r.pre == nil {
+		r.pre = map[[2]int]*preState{}
+	}
+	r.pre[[2]int{x, y}] = &preState{x: x, y: y, score: sc, exp: exp, connected: r.connected(x, y)}
+}
+
+// siblingsConnected: peers other than y that are connected to x from y's IP address.
+func (r *erun) siblingsConnected(x, y int) []int {
+	var out []int
+	for z, Z := range r.nodes {
+		if z != x && z != y && Z.ip == r.nodes[y].ip && r.connected(x, z) {
+			out = append(out, z)
+		}
+	}
+	return out
 }
 
 var scenarioSeq atomic.Int64
@@ -218,7 +385,7 @@ func (r *erun) setup() error {
 	sweep := time.Duration(s.SweepMs) * time.Millisecond
 	id := scenarioSeq.Add(1)
 	for i := 0; i < s.N; i++ {
-		n := &enode{idx: i, cnt: map[string]map[int]int{procEcho: {}, procStrict: {}}, cause: map[int]string{}}
+		n := &enode{idx: i, cnt: map[string]map[int]int{procEcho: {}, procStrict: {}}, cause: map[int]string{}, banBy: map[string]int{}, contrib: map[string]map[int]bool{}}
 		var addr string
 		if s.V6 {
 			n.ip = "::1"
@@ -514,10 +681,10 @@ func (r *erun) expectPenalty(x, y int, exact int, cause string, t0 time.Time) st
 	X, Y := r.nodes[x], r.nodes[y]
 	st := X.bm.get(Y.ip)
 	if st.banned {
-		// penalties on a banned IP are outside the statement; tell the model that the ban may have been renewed
-		X.bm.penalty(Y.ip, 1, 0, false, t0, time.Now())
-		return ""
+		// the score of a banned IP is outside the statement, the connection of the penalised peer is not
+		return r.penaltyOnBannedIP(x, y, exact, cause, t0)
 	}
+	delete(r.pre, [2]int{x, y})
 	prev := st.score
 	var sc int
 	okSeen := waitFor(6*time.Second, func() bool {
@@ -539,18 +706,102 @@ func (r *erun) expectPenalty(x, y int, exact int, cause string, t0 time.Time) st
 	if v := X.bm.penalty(Y.ip, sc-prev, sc, true, t0, t1); v != "" {
 		return v
 	}
+	if prev == 0 || X.contrib[Y.ip] == nil {
+		X.contrib[Y.ip] = map[int]bool{}
+	}
+	X.contrib[Y.ip][y] = true
+	if len(X.contrib[Y.ip]) >= 2 {
+		r.res.labels["shared-ip:score-accumulated-over-several-peers"] = true
+	}
 	if st.banned {
 		r.res.labels["banned-by:"+cause] = true
 		if Y.dialOnly {
 			r.res.labels["dial-only-peer-banned-by:"+cause] = true
 		}
-		return r.afterBan(x, y, cause)
+		X.banBy[Y.ip] = y
+		if len(X.contrib[Y.ip]) >= 2 {
+			r.res.labels["shared-ip:banned-by-penalties-of-several-peers"] = true
+		}
+		sibs := r.siblingsConnected(x, y)
+		if len(sibs) > 0 {
+			r.res.labels["shared-ip:banned-while-another-peer-of-the-ip-is-connected"] = true
+			r.logf("%s is banned at %s while %d other peer(s) from that IP are connected: %v", Y.ip, r.name(x), len(sibs), sibs)
+		}
+		if v := r.afterBan(x, y, cause, ""); v != "" {
+			return v
+		}
+		for _, z := range sibs {
+			if r.connected(x, z) {
+				// engine behaviour (only the penalised peer's connections are closed); the statement does not forbid it
+				r.res.labels["shared-ip:other-peer-keeps-its-connection-after-the-ban"] = true
+			}
+		}
+		return ""
 	}
 	return ""
 }
 
+// penaltyOnBannedIP: y was penalised at x (message sent after t0) while the model has y's IP banned at x. The stored
+// score of a banned IP is not asserted. What the statement does fix: a penalty that leaves the IP's total at or above
+// the threshold ("once the total reaches the ban threshold the peer is disconnected") must close the penalised peer's
+// connection - in particular the connection of a second peer of an IP that another peer got banned. amount < 0: a ban
+// (the engine adds the threshold itself).
+func (r *erun) penaltyOnBannedIP(x, y int, amount int, cause string, t0 time.Time) string {
+	X, Y := r.nodes[x], r.nodes[y]
+	pre := r.pre[[2]int{x, y}]
+	delete(r.pre, [2]int{x, y})
+	if amount < 0 {
+		amount = threshold
+	}
+	if pre == nil {
+		X.bm.penalty(Y.ip, 1, 0, false, t0, time.Now()) // no snapshot: only tell the model that the ban may have been renewed
+		return ""
+	}
+	var sc int
+	var exp int64
+	seen := waitFor(6*time.Second, func() bool {
+		sc, exp, _ = X.conn.VerifPeerScore(Y.ip)
+		return sc != pre.score || exp != pre.exp
+	})
+	t1 := time.Now()
+	if !seen {
+		r.logf("%s by %s while %s is banned at %s: stored score stays %d (nothing asserted)", cause, r.name(y), Y.ip, r.name(x), pre.score)
+		r.res.labels["penalty-on-banned-ip-not-visible"] = true
+		X.bm.penalty(Y.ip, 1, 0, false, t0, t1)
+		return ""
+	}
+	st := X.bm.get(Y.ip)
+	zone := st.zone(t0, t1)
+	r.logf("%s by %s while %s is banned at %s (zone %s, banned because of N%d): stored score %d -> %d, peer connected before: %v", cause, r.name(y), Y.ip, r.name(x), zone, X.banBy[Y.ip], pre.score, sc, pre.connected)
+	// must zone: the ban is renewed; later: a return value equal to the amount means that the old entry had been swept
+	if v := X.bm.penalty(Y.ip, amount, sc, true, t0, t1); v != "" {
+		return v
+	}
+	if sc == amount {
+		// fresh entry: this peer alone accounts for the new score
+		X.contrib[Y.ip] = map[int]bool{y: true}
+		X.banBy[Y.ip] = y
+	}
+	if sc < threshold || !pre.connected {
+		return ""
+	}
+	X.cause[y] = cause
+	r.res.labels["penalty-on-banned-ip:"+cause] = true
+	r.res.labels["penalty-on-banned-ip-in-zone:"+zone] = true
+	other := ""
+	if by, ok := X.banBy[Y.ip]; ok && by != y {
+		r.res.labels["shared-ip:second-peer-penalised-after-ban-by-first:"+cause] = true
+		other = fmt.Sprintf("; the IP had been banned because of %s, %s kept its connection and was penalised now (stored total %d -> %d)", r.name(by), r.name(y), pre.score, sc)
+	}
+	if v := r.afterBan(x, y, cause, other); v != "" {
+		return v
+	}
+	r.res.labels["disconnected-by-penalty-on-banned-ip"] = true
+	return ""
+}
+
 // afterBan: x has just banned y's IP: the peer must get disconnected.
-func (r *erun) afterBan(x, y int, cause string) string {
+func (r *erun) afterBan(x, y int, cause string, note string) string {
 	X, Y := r.nodes[x], r.nodes[y]
 	if v, _ := r.listedOnce(x, y); v != "" {
 		return v
@@ -574,7 +825,7 @@ func (r *erun) afterBan(x, y int, cause string) string {
 		if envelope {
 			sig = sigF1
 		}
-		return fmt.Sprintf("%s banned %s (cause %s, score >= %d) but peer %s is still connected %v later [signature %s]", r.name(x), Y.ip, cause, threshold, r.name(y), patience, sig)
+		return fmt.Sprintf("%s banned %s (cause %s, score >= %d) but peer %s is still connected %v later%s [signature %s]", r.name(x), Y.ip, cause, threshold, r.name(y), patience, note, sig)
 	}
 	r.res.labels["disconnected-after-ban"] = true
 	waitFor(3*time.Second, func() bool { return !r.connected(y, x) })
@@ -617,11 +868,25 @@ func (r *erun) request(a, b int, proc string, data []byte) string {
 			return ""
 		}
 	}
+	// a's IP is already banned at b (another peer of that IP got it banned, a kept its connection) and this request earns
+	// a penalty: b closes the connection - unless the ban's entry was swept in the meantime (then the score is fresh)
+	cut := false
+	if stB := B.bm.get(A.ip); stB.banned && (penB || (proc == procStrict && len(data) == 1)) {
+		cut = true
+	}
 	timeout := 10 * time.Second
 	if banB || appBan {
 		timeout = 300 * time.Millisecond // no answer can come: b closes the connection
+	} else if cut {
+		timeout = 3 * time.Second
+		if r.zone(b, a) == "must" {
+			timeout = 300 * time.Millisecond
+		}
 	}
 	ctx, cancel := context.WithTimeout(context.Background(), timeout)
+	r.pre = nil
+	r.snap(b, a)
+	r.snap(a, b)
 	t0 := time.Now()
 	resp := A.conn.RequestFrom(ctx, B.conn.ID(), proc, data)
 	cancel()
@@ -645,6 +910,9 @@ func (r *erun) request(a, b int, proc string, data []byte) string {
 		}
 	}
 	if banB || appBan {
+		return ""
+	}
+	if cut && !answered {
 		return ""
 	}
 	if !answered {
@@ -741,7 +1009,12 @@ func (r *erun) runEvent(e eev) string {
 			r.res.labels["burst-exactly-to-limit"] = true
 		}
 		for i := 0; i < n; i++ {
-			if r.zone(a, b) != "clean" || r.zone(b, a) != "clean" || !r.connected(a, b) {
+			if r.s.Shared {
+				// a peer can be connected although its IP is banned (another peer of the IP caused the ban): it goes on
+				if !r.connected(a, b) || !r.connected(b, a) {
+					break
+				}
+			} else if r.zone(a, b) != "clean" || r.zone(b, a) != "clean" || !r.connected(a, b) {
 				break // banned meanwhile
 			}
 			if v := r.request(a, b, procEcho, []byte{byte(i)}); v != "" || r.res.infra != "" {
@@ -793,6 +1066,8 @@ func (r *erun) runEvent(e eev) string {
 		}
 		r.logf("%s %s -> %s: %d raw bytes %x on the %s protocol", e.Kind, r.name(a), r.name(b), len(data), data, map[bool]string{true: "request", false: "response"}[isReq])
 		ctx, cancel := context.WithTimeout(context.Background(), 10*time.Second)
+		r.pre = nil
+		r.snap(b, a)
 		t0 := time.Now()
 		err := A.conn.VerifRawSend(ctx, B.conn.ID(), isReq, data)
 		cancel()
@@ -885,6 +1160,16 @@ func runScenario(s escn) *seqResult {
 	}
 	if s.DialOnly >= 0 {
 		res.labels["e2e-dial-only-node"] = true
+	}
+	if s.Shared {
+		res.labels["e2e-shared-ip"] = true
+		res.labels[fmt.Sprintf("e2e-shared-ip:%d-of-%d-nodes-on-one-ip", len(s.Group), s.N)] = true
+		for _, i := range s.Group {
+			if i == s.DialOnly && len(s.Group) > 1 {
+				res.labels["e2e-shared-ip:dial-only-peer-and-listener-on-127.0.0.1"] = true
+			}
+		}
+		r.logf("shared IP: nodes %v are on %s", s.Group, r.nodes[s.Group[0]].ip)
 	}
 	// sanity of the environment: the IP a node sees for its peer is the peer's listen IP (reuseport dialing)
 	if s.BlackOf < 0 {
